@@ -74,7 +74,7 @@ structure SInv (c : Cfg) (x : Seq) : Prop where
   dead_skip : ∀ a y, x.st a = .dead → x.pub y → x.bef a y = true → x.pubS y < x.deadS a →
     (x.st y = .live ∨ x.deadS a < x.deadS y) → x.next a ≠ 0 ∧ (y = x.next a ∨ x.bef (x.next a) y = true)
   pub_le : ∀ a, x.pub a → x.pubS a ≤ x.tick
-  dead_le : ∀ a, x.st a = .dead → x.deadS a ≤ x.tick ∧ x.pubS a ≤ x.deadS a
+  dead_le : ∀ a, x.st a = .dead → x.deadS a ≤ x.tick ∧ x.pubS a < x.deadS a
   data_ok : ∀ a, x.pub a → a ≠ 0 → x.data a = true
   prev_ok : ∀ a, x.st a = .live → (a ≠ 0 ∨ c.hl = false) → excOf x ≠ some a →
     x.st (x.prev a) = .live ∧ x.next (x.prev a) = a
